@@ -9,14 +9,23 @@ from props import c11 as api
 from props.c11 import hx, unhx, ref_parse_uint
 
 
-def cfg(oppw="verifoppw", extra="", bridges=True, banned=None):
+def cfg(oppw="verifoppw", extra="", bridges=True, banned=None, origins=None):
     s = 'SessionExpiration = "30m"\nPostMessageCooloff = "0s"\n' + extra
     s += '[IRC]\n[[IRC.Operators]]\nName = "verifop"\nPassword = "%s"\n' % oppw
     if bridges:
         s += '[TrustedBridges]\nverifbridge = "verif"\n'
     if banned:
         s += "[Banned]\n" + "".join('"%s" = "%s"\n' % kv for kv in banned)
+    if origins:
+        s += "[WhitelistedOrigins]\n" + "".join('"%s" = %s\n' % (o, "true" if on else "false") for o, on in origins)
     return s
+
+
+def some_origins(rng):
+    """allowed origins: some switched on, some switched off by flipping the value (not by deleting the line)"""
+    if rng.random() < 0.5:
+        return None
+    return [("https://web%d.example" % i, rng.random() < 0.6) for i in range(rng.randint(1, 3))]
 
 
 INVALID = ['SessionExpiration = 5\n', '[IRC\n', 'garbage === 1\n', 'SessionExpiration = "notaduration"\n', 'MaxSessions = "many"\n',
@@ -44,7 +53,7 @@ def gen_case(rng, ci, quick):
             newpw = rng.choice(["verifoppw", "pw-%d" % rng.randint(0, 3)])
             body = cfg(newpw, extra=rng.choice(["", "MaxSessions = %d\n" % rng.randint(50, 99), "MaxChannels = 77\n", 'CaptchaURL = "http://c/%d"\n' % rng.randint(0, 9),
                                                "Unknown = 1\n"]),
-                       banned=[("10.9.9.%d" % rng.randint(1, 9), "preset")] if rng.random() < 0.2 else None)
+                       banned=[("10.9.9.%d" % rng.randint(1, 9), "preset")] if rng.random() < 0.2 else None, origins=some_origins(rng))
         else:
             newpw, body = None, rng.choice(INVALID)
         how = how or rng.choice(["current", "current", "current", "hex", "stale", "future", "garbage", "missing", "empty", "underscore"])
@@ -63,7 +72,7 @@ def gen_case(rng, ci, quick):
         def H(r, body): add("H:%d:%s" % (r, hx(body)), {"inject": r})
         kind = rng.choice(["stale", "stale", "duplicate", "future", "unparsable", "valid", "stale-then-valid"])
         pw = "inj-%d" % rng.randint(0, 9)
-        good = cfg(pw, extra=rng.choice(["", "MaxChannels = %d\n" % rng.randint(10, 40)]))
+        good = cfg(pw, extra=rng.choice(["", "MaxChannels = %d\n" % rng.randint(10, 40)]), origins=some_origins(rng))
         if kind == "stale":
             H(rng.randint(0, rev), good)
         elif kind == "future":
@@ -294,7 +303,7 @@ def run(ck, replay):
     ck.assumptions += ["no assumption on what the answering handler saw is left: the state machine skips every Config entry that does not carry revision in force + 1 "
                        "(C16_fsm_out_of_sequence, C16_log_effects, C16_stale_post; statemachine.go b3bad2c); of two concurrent posts naming the same revision exactly one takes effect. "
                        "The lagging handler itself is not reproduced here (single node; the sysdrv scenarios of C05 do that): its effect, the out-of-sequence entry, is injected (op H)",
-                       "known gap, reported under C03 not here: Config.WhitelistedOrigins is not part of the snapshot encoding (DESIGN D7b); the generator does not set it",
+                       "allowed origins (Config.WhitelistedOrigins, part of the snapshot encoding since baa91ab) are exercised with entries switched on and off",
                        "config.DefaultConfig.Banned is one process-wide map shared by every IRCServer that has not yet applied a Config entry; GLINE needs an operator and "
                        "therefore a Config entry first, so every history here has its own map"]
     ok = ck.proof_obligations()
@@ -361,7 +370,7 @@ def run(ck, replay):
     ck.cov["traces_validated_against_impl"] = len(lines)
     ck.cov["rule"] = ("per history a fresh node: raw Config entries injected into raft with stale / duplicate / future / in-sequence revisions and unparsable bodies (what a handler "
                       "lagging behind the log lets through, D20), also across Marshal/Unmarshal and a real raft snapshot + FSM.Restore; configuration posts (valid bodies differing in operator password / limits / captcha URL / preset bans / unknown keys; "
-                      "invalid TOML, wrong types, bad durations, duplicate keys, non-UTF-8) x revision header (current, hex, stale, future, garbage, missing, empty, with "
+                      "allowed origins switched on / off; invalid TOML, wrong types, bad durations, duplicate keys, non-UTF-8) x revision header (current, hex, stale, future, garbage, missing, empty, with "
                       "underscore), GET /config after most steps, 2-4 sessions with traffic, OPER with passwords of current/old/never configurations, GLINE by operators "
                       "and non-operators, Marshal/Unmarshal restore; ends with a second replica of the log (outputs compared entry by entry) and a restored copy. "
                       "non-trivial = history with at least one accepted update confirmed by the monitor, distinct by text")
